@@ -631,6 +631,22 @@ class DStr(Op):
         for _ in range(n):
             yield (rng.randrange(2),) + gen_intdur(rng, mixed=rng.random() < 0.4, allow_unrepr=True)
 
+    sibling_rate = 0.25
+
+    def sibling(self, a, rng):
+        """An EQUAL duration (same years, months and exact length) in other units: equal and equally hashed,
+        but printed differently."""
+        d = a[1:]
+        if d[0] == "W":
+            return [(a[0], "U", 0, 0, 7 * d[1], 0, 0, 0)]
+        _, y, mo, dd, h, mi, sec = d
+        if max(abs(dd), abs(h), abs(mi), abs(sec)) > 10 ** 12:
+            return []
+        out = [(a[0], "U", y, mo, 0, h + 24 * dd, mi, sec), (a[0], "U", y, mo, dd, 0, mi + 60 * h, sec)]
+        if y == 0 and mo == 0 and h == 0 and mi == 0 and sec == 0 and dd % 7 == 0 and dd != 0:
+            out.append((a[0], "W", dd // 7))
+        return [rng.choice(out)]
+
     def line(self, a):
         return "dstr " + dur_str(a[1:])
 
